@@ -26,6 +26,18 @@ CHECKS = {
                      'From<Rep> terminates and wraps into range congruent mod 2^bits; widening From impls preserve the value; Add/Sub/Mul (and Neg where a signed type '
                      'implements it) return in-range values congruent to the exact result (release) or the exact result / panic only on overflow (debug), for ALL operand pairs.',
                 note=TB + '; two\'s-complement wrap of the backing integer when overflow checks are off.'),
+    'C04': dict(level='other', ref='DESIGN.md §5 C04',
+                technique='path summaries with value terms over MIR (symbolic execution without solver): call-count/order and return-term rules on every acyclic path',
+                text='All 35 impl Signal are enumerated from the type-checked program; on every non-panicking path of next(), Signal::next is called exactly once on each '
+                     'Signal-typed source field and on nothing else (Delay: none while silent), and the return term of each pointwise adaptor is the documented frame operation '
+                     '(clip: three-cell clamp closure). Composition is a paper induction; numeric frame semantics are C03.',
+                note=TB + '; user closures / user Signal impls are opaque effects; no feasibility solving (only constant folding).'),
+    'C05': dict(level='other', ref='DESIGN.md §5 C05',
+                technique='item-table sibling rule (override of is_exhausted) + path summaries: boolean truth tables and step-function conformance',
+                text='Decides structurally, for all paths: every impl Signal storing a Signal source overrides is_exhausted; each override is the OR of its sources '
+                     '(Delay: n==0 AND source; iterator-backed: look-ahead slot empty); look-ahead protocol of from_iter/from_interleaved_samples_iter; step functions of '
+                     'UntilExhausted, Take, IntoInterleavedSamples::next_sample; lift wiring. The history-level statement follows by induction (paper).',
+                note=TB + '; user iterators and closures are opaque effects.'),
 }
 
 NOT_YET = 'check not implemented yet in this revision of /verif (see DESIGN.md §10 build order)'
